@@ -1,14 +1,14 @@
 #!/bin/bash
 # runs every claimed property's check (tier $1, default quick) on /repo's current tree; prints a summary
 tier=${1:-quick}
-cd /verif
+cd "$(dirname "$(readlink -f "$0")")"
 for p in $(python3 -c "import props; print(' '.join(sorted(props.PROPS)))"); do
   out=$(./check $p --tier $tier 2>&1); rc=$?; echo "$p rc=$rc $(echo "$out" | tail -2 | tr "\n" " " | cut -c1-200)"
 done
 python3-vt - <<'PY'
 import json, jsonschema, glob
 sch=json.load(open('/root/.vp/EVIDENCE.schema.json'))
-for f in sorted(glob.glob('/verif/evidence/*.json')):
+for f in sorted(glob.glob('evidence/*.json')):
     e=json.load(open(f)); jsonschema.validate(e, sch)
     c=e['coverage']; print('evidence', e['property_id'], e['level'], c.get('obligations'), c.get('discharged'), c.get('status'))
 PY
